@@ -239,6 +239,8 @@ _PLUGIN = None
 
 def _init_worker(modname):
     global _PLUGIN
+    import warnings
+    warnings.simplefilter("ignore")
     _PLUGIN = importlib.import_module(modname)
 
 
